@@ -3,7 +3,7 @@ import Dcg.Driver.Types
 import Dcg.Model.Imports
 /-!
 Line protocol for Model.Imports. An import is `(<from or -> <name> <alias or -> <reference_path or ->)`,
-an operation `(app <import>…)`, `(rem <import>…)`, `(rr <path>)`. A state is written as
+an operation `(app <import>…)`, `(rem <import>…)`, `(rr <path>)` (and `(rem1 <import>)` in recorded histories: `imports.ledger`). A state is written as
 `(st (<from> <name>…)… | (<from> <name> <alias>)… | (<from> <name> <count>)… | (<path> <import>)… | <dump>)`.
 -/
 namespace Dcg.Driver.Imports
@@ -16,6 +16,13 @@ def op? : SX → Option Op
   | .list (.atom "app" :: xs) => (imps? xs).map .append
   | .list (.atom "rem" :: xs) => (imps? xs).map .remove
   | .list [.atom "rr", p] => p.str?.map .removeRef
+  | _ => none
+
+def lop? : SX → Option LOp
+  | .list (.atom "app" :: xs) => (imps? xs).map .app
+  | .list (.atom "rem" :: xs) => (imps? xs).map .rem
+  | .list [.atom "rem1", x] => (imps? [x]).bind (fun l => l.head?.map .rem1)
+  | .list [.atom "rr", p] => p.str?.map .rr
   | _ => none
 
 def optS (o : Option Str) : String := match o with | some s => encodeStr s | none => "-"
@@ -44,6 +51,19 @@ def handlers : List (String × Handler) := [
   ("imports.run", fun
     | [.list ops] => match ops.mapM op? with
       | some ops => "ok (" ++ " ".intercalate (trace (some {}) ops) ++ ")"
+      | none => "err args"
+    | _ => "err args"),
+  -- the recorded history of one real `Imports` object: is it disciplined (`ledgerRun`), and the state it ends in
+  ("imports.ledger", fun
+    | [.list ops] => match ops.mapM lop? with
+      | some os =>
+        let verdict := match ledgerBreak {} {} os 0 with
+          | none => "disciplined"
+          | some n => "(break " ++ toString n ++ ")"
+        let final := match run {} (os.map LOp.op) with
+          | some s => stateS s
+          | none => "raise"
+        "ok " ++ verdict ++ " " ++ final
       | none => "err args"
     | _ => "err args"),
   -- run the operations, then prune against the code
